@@ -2,10 +2,10 @@
 from common import *  # noqa
 import dbtie
 
-PROFILE = {'scenario_pref': ['getter_memo', 'carriers', 'handle_times'], 'p_write': 0.35, 'getter_bias': 0.8}
+PROFILE = {'scenario_pref': ['same_row_twice', 'getter_memo', 'carriers', 'handle_times'], 'p_write': 0.35, 'getter_bias': 0.8}
 
 
 def main(tier, seed):
-    return dbtie.db_check("C07", tier, seed, PROFILE, 400, 6000, "Prop_C07",
+    return dbtie.db_check("C07", tier, seed, PROFILE, 650, 6000, "Prop_C07",
                           "user callables and re are an environment the theorems quantify over; the tie instantiates them with the twin table")
 
